@@ -52,6 +52,14 @@ DomainOK(r, a, j, K) ==
   /\ InRangeL(RateAtL(r, a, j, One)) /\ InRangeL(RateAtL(r, a, j, K))
   /\ \A k \in VertexCands(a, j) : InMove(k, K) => InRangeL(RateAtL(r, a, j, FromInt(k)))
   /\ InRangeL(AccelAtL(a, j, K))
+\* C02's domain is the signed 32-bit range itself: -2^31 is a legal rate / acceleration there (C01 and C17 say |.| <= 2^31-1)
+BMin32 == Neg(Add(BMm1, One))
+InRange32L(x) == Cmp(x, BMin32) >= 0 /\ Cmp(x, BMm1) <= 0
+DomainOK32(r, a, j, K) ==
+  /\ K.s > 0
+  /\ InRange32L(RateAtL(r, a, j, One)) /\ InRange32L(RateAtL(r, a, j, K))
+  /\ \A k \in VertexCands(a, j) : InMove(k, K) => InRange32L(RateAtL(r, a, j, FromInt(k)))
+  /\ InRange32L(AccelAtL(a, j, K))
 BMax(x, y) == IF Cmp(x, y) >= 0 THEN x ELSE y
 \* true peak |rate| over ticks 1..K: a discrete parabola peaks at an end or next to its turning point
 PeakL(r, a, j, K) ==
